@@ -20,6 +20,7 @@ package consensus
 import (
 	"encoding/binary"
 	"encoding/json"
+	"fmt"
 	"os"
 	"runtime"
 	"strings"
@@ -153,6 +154,7 @@ func (s *c17Stub) ReceiveEnvelope(env p2p.Envelope) {
 
 // ---------------------------------------------------------------- environment
 type c17Env struct {
+	wedged   string // set once a liveness probe failed: later cases of this environment are not executed
 	name     string
 	switches []*p2p.Switch // 0 node, 1 evil, 2 honest
 	stubs    [3]*c17Stub
@@ -444,14 +446,31 @@ func c17Run(h c17Hooks, reactor string) {
 			res[k] = v
 		}
 		t0 := time.Now()
+		if env.wedged != "" {
+			res["supported"], res["note"] = false, "node wedged by an earlier case: "+env.wedged
+			c17Fill(res)
+			out.emit(res)
+			continue
+		}
 		if !env.reconnect() {
 			res["supported"], res["note"] = false, "cannot (re)connect"
 			c17Fill(res)
 			out.emit(res)
 			continue
 		}
-		h.prepare(env, c.PS)
-		ch, msg, ok := h.build(env, c)
+		var ch byte
+		var msg []byte
+		var ok bool
+		if !c17WithTimeout(20*time.Second, func() {
+			h.prepare(env, c.PS)
+			ch, msg, ok = h.build(env, c)
+		}) {
+			env.wedged = "preparing the case hangs"
+			res["supported"], res["note"] = false, "node wedged by an earlier case: "+env.wedged
+			c17Fill(res)
+			out.emit(res)
+			continue
+		}
 		if !ok {
 			res["supported"], res["note"] = false, "no builder"
 			c17Fill(res)
@@ -488,6 +507,9 @@ func c17Run(h c17Hooks, reactor string) {
 		res["allocated"] = allocated
 		res["retained"] = c17Retained(allocated)
 		res["cap"] = env.caps[ch]
+		if res["probe"] != "ok" || bar == "timeout" {
+			env.wedged = fmt.Sprintf("%v/%v after %s:%s:%s", res["probe"], bar, c.Kind, c.FC, c.PS)
+		}
 		res["us"] = []int64{t1.Sub(t0).Microseconds(), t2.Sub(t1).Microseconds(), t3.Sub(t2).Microseconds(), time.Since(t3).Microseconds()}
 		out.emit(res)
 	}
